@@ -571,6 +571,9 @@ fn explore() {
                 let kpre = state_key(&dpre, pre.phase);
                 let apre = project(&pre, nmax);
                 let expand = apre["nh"].as_u64().unwrap() <= nmax && apre["nc"].as_u64().unwrap() <= nmax;
+                // is the running signer in this state equal to one restored from its store?
+                ctx.restore(&pre);
+                let r0 = restart_view(&ctx).0["equal"] == true;
                 if expand {
                     for (ri, r) in alphabet.iter().enumerate() {
                         ctx.restore(&pre);
@@ -638,7 +641,7 @@ fn explore() {
                                           mask, if re_ok { 1 } else { 0 }]));
                     }
                 }
-                o.put(&json!({"id": pre_id, "pre": apre, "x": expand, "e": edges}));
+                o.put(&json!({"id": pre_id, "pre": apre, "x": expand, "r0": if r0 { 1 } else { 0 }, "e": edges}));
                 for d in details.iter() {
                     od.put(d);
                 }
